@@ -64,19 +64,18 @@ def main():
     res["confirmed"] = confirmed
     res["checks"] = {}
     if confirmed:
-        rc, out = sh("git -C /repo status --porcelain")
-        if out.strip():
-            print("REFUSING: /repo is dirty:\n" + out)
-            return 2
-        rc, out = sh("git -C /repo apply %s" % os.path.join(src, "patch.diff"))
+        # the change is applied to a scratch worktree and the checks are pointed at it (VERIF_REPO): equivalent to
+        # `git -C /repo apply` + `git -C /repo checkout -- .`, without disturbing anything else that reads /repo
+        wt2 = "/tmp/seedeval/repo-%d" % os.getpid()
+        sh("git -C /repo worktree add -q --detach %s HEAD" % wt2)
+        rc, out = sh("git apply %s" % os.path.join(src, "patch.diff"), cwd=wt2)
         try:
             for c in checks:
                 t0 = time.time()
-                rc, out = sh("VERIF_EVIDENCE_DIR=/tmp/seedeval/ev ./check %s --tier %s" % (c, tier), cwd=VERIF, timeout=7200)
+                rc, out = sh("VERIF_REPO=%s VERIF_EVIDENCE_DIR=/tmp/seedeval/ev ./check %s --tier %s" % (wt2, c, tier), cwd=VERIF, timeout=7200)
                 lines = [l for l in out.split("\n") if l.startswith("VIOLATION") or l.startswith(c + " ")]
                 res["checks"][c] = {"exit": rc, "wall_s": round(time.time() - t0, 1), "lines": lines[:8],
                                     "concrete": any(l.startswith("VIOLATION") and "no-failing-input-found" not in l for l in lines)}
-                # keep one replay for the record
                 for l in lines:
                     if l.startswith("VIOLATION") and "replay=" in l:
                         rp = l.split("replay=")[1].split()[0]
@@ -87,7 +86,9 @@ def main():
                             pass
                         break
         finally:
-            sh("git -C /repo checkout -- . && git -C /repo clean -fdq")
+            sh("git -C /repo worktree remove --force %s" % wt2)
+            # leave the regenerated facts of the unchanged tree behind
+            sh("./bin/extract >/dev/null 2>&1; ./bin/sites >/dev/null 2>&1", cwd=VERIF)
     dst = os.path.join(VERIF, "seeded", name)
     os.makedirs(dst, exist_ok=True)
     for f in os.listdir(src):
@@ -100,7 +101,7 @@ def main():
             shutil.copy(p, dst)
     json.dump({"breaks": prop, "summary": meta.get("summary", ""), "needs": meta.get("needs", ""), "files": meta.get("files", []),
                "author_claims": meta.get("verified", {}), "confirmed_by_us": {k: res.get(k) for k in ["demo_passes_without", "patch_applies", "compiles", "suite_passes", "demo_fails_with_patch", "confirmed"]},
-               "what_we_ran": "scratch worktree: demo.sh without patch, git apply, go build ./..., go test of touched packages + internal/cli + pkg/build, demo.sh with patch; then `git -C /repo apply`, ./check, `git -C /repo checkout -- .`",
+               "what_we_ran": "scratch worktree: demo.sh without patch, git apply, go build ./..., go test of touched packages + internal/cli + pkg/build, demo.sh with patch; then the patch applied to a second scratch worktree of /repo and ./check run against it (VERIF_REPO), worktree removed afterwards",
                "check_results": res["checks"]}, open(os.path.join(dst, "meta.json"), "w"), indent=1)
     print(json.dumps({k: v for k, v in res.items() if k not in ("suite_output", "demo_output_with_patch")}, indent=1)[:3000])
     return 0
